@@ -165,10 +165,14 @@ class _GroupElem(ABC):
             return self.dim
         # embedding dimension deduced from the coordinates: 3D if any z, else
         # 2D if any y, else 1D (elements lying on the x-axis).
+        # A coordinate is zero up to the round-off of the largest one, so that elements
+        # moved back into the (x, y) plane or onto the x-axis (e.g. by two opposite
+        # rotations) recover their embedding dimension.
         _, y, z = np.abs(coord.T)
-        if np.max(z) > 0:
+        tol = 1e-12 * np.max(np.abs(coord))
+        if np.max(z) > tol:
             return 3
-        elif np.max(y) > 0:
+        elif np.max(y) > tol:
             return 2
         else:
             return 1
